@@ -141,14 +141,21 @@ def load_known_findings() -> Dict[str, Any]:
 
 
 def match_known(pid: str, fail: Failure, known) -> Optional[Dict[str, Any]]:
+    """A failure is a known finding iff an entry for this property matches its obligation (when given)
+    and its normalised failing input: `match` (substring) or `regex` on key / what."""
+    import re
     key = fail.key or fail.what
     for k in known.get("findings", []):
-        if k.get("property") != pid:
+        if pid not in (k.get("property"), *k.get("also", [])):
             continue
-        if k.get("obligation") and k["obligation"] != fail.obligation:
+        if k.get("obligation") and not re.search(k["obligation"], fail.obligation):
             continue
-        m = k.get("match")
-        if m is None or m in key or m in fail.what:
+        m, rx = k.get("match"), k.get("regex")
+        if m is not None and (m in key or m in fail.what):
+            return k
+        if rx is not None and (re.search(rx, key) or re.search(rx, fail.what)):
+            return k
+        if m is None and rx is None:
             return k
     return None
 
